@@ -119,6 +119,7 @@ type Frame struct {
 	iterStarts map[int]*State
 	paramObjs  []types.Object
 	rangeIdx   map[int]types.Object
+	rangeColl  map[int]*Term
 }
 
 type sliceParentInfo struct {
